@@ -113,6 +113,7 @@ func (w *Workers) worker() {
 			w.count--
 			if w.count == 0 {
 				w.cond.Broadcast()
+				verifAt("workers.worker.bcast", w, 0)
 			}
 			w.mutex.Unlock()
 			return
